@@ -324,7 +324,13 @@ def detect_spec_version(stix_dict):
     :return: A STIX version in "X.Y" format
     """
 
-    obj_type = stix_dict["type"]
+    try:
+        obj_type = stix_dict["type"]
+    except (KeyError, TypeError):
+        raise ValueError(
+            "Can't detect the spec version of an object with no 'type' "
+            "property: %s" % str(stix_dict),
+        )
 
     if 'spec_version' in stix_dict:
         # For STIX 2.0, applies to bundles only.  Presence in a bundle implies
